@@ -34,7 +34,7 @@ for d in sorted(glob.glob("/verif/seeded/*")):
         e = dict(os.environ); e["VERIF_SEED"] = seed
         rc, out = sh("./check %s %s" % (meta["property"], tier), "/verif", e)
     finally:
-        sh("git checkout -- .", "/repo")
+        sh("git checkout -- . && git clean -fdq", "/repo")
         sh("rm -rf /verif/replays", "/verif")
     viol = [l for l in out.splitlines() if l.startswith("VIOLATION")]
     meta["repo_run"] = {"applies": True, "cmd": "git -C /repo apply seeded/%s/patch.diff; VERIF_SEED=%s ./check %s %s; git -C /repo checkout -- ." % (mid, seed, meta["property"], tier),
